@@ -80,6 +80,11 @@ def generate(rng, tier, idx):
             rnd['advance_ns'] = -rng.choice([2_000_000_000, 3_600_000_000_000, 86_400_000_000_000, 7 * 86_400_000_000_000])
         if inter_round == ri and ri < n_rounds - 1 and live:
             rnd['interleave'] = rng.choice(live)
+        elif ri < n_rounds - 1 and live and rng.random() < 0.12:
+            # schedule fault: a file (preferably one modified in this round) is listed by the directory walk but gone when
+            # the update opens it, and is back - mtime preserved - right after the run (an editor's rename-and-replace)
+            same = [o['p'] for o in ops if o['k'] == 'same' and o['p'] in live]
+            rnd['vanish'] = rng.choice(same) if same else rng.choice(live)
         rounds.append(rnd)
     opts = {'hashes': rng.choice([['SHA256'], ['MD5', 'SHA1'], ['BLAKE2B', 'SHA512']])}
     if rng.random() < 0.3:
@@ -305,10 +310,33 @@ def execute(sc):
                             apply_op(A, {'k': 'same', 'p': inter, 'salt': 77}, fired['t'])
                     seam.hook = hook
                 now_before = clock.now_ns
-                rA, ssA = upd(A, ['-i'], opi)
+                van = rnd.get('vanish')
+
+                def with_vanish(root_name, root, fn):
+                    if not van or not os.path.isfile(os.path.join(root, van)):
+                        return fn()
+                    vdir = root_name + ('/' + os.path.dirname(van) if os.path.dirname(van) else '')
+                    aside = os.path.join(w.base, '.aside-' + root_name)
+                    st_ = {'done': False}
+
+                    def hook(seam_, n, kind, rel):
+                        hook_scanstart(seam_, n, kind, rel)
+                        if kind == 'scandir.next' and rel == vdir and not st_['done']:
+                            st_['done'] = True
+                            _o['os.rename'](os.path.join(root, van), aside)
+                    seam.hook = hook
+                    try:
+                        return fn()
+                    finally:
+                        seam.hook = hook_scanstart
+                        if st_['done'] and os.path.exists(aside):
+                            _o['os.rename'](aside, os.path.join(root, van))
+                            counters['files_vanished_during_scan'] = counters.get('files_vanished_during_scan', 0) + 1
+                            seam.fired['file-vanished-during-scan'] = seam.fired.get('file-vanished-during-scan', 0) + 1
+                rA, ssA = with_vanish('A', A, lambda: upd(A, ['-i'], opi))
                 opi += 1
                 seam.hook = hook_scanstart
-                rB, ssB = upd(B, [], opi)
+                rB, ssB = with_vanish('B', B, lambda: upd(B, [], opi))
                 opi += 1
                 if inter and fired['done']:
                     # B receives the same modification between the rounds
@@ -321,7 +349,14 @@ def execute(sc):
                         violations.append(viol('I-internal', 'internal error escaped: %s: %s' % (r[1], r[2]), sig=r[1]))
                 if rA[0] != 'ok' or rB[0] != 'ok':
                     if (rA[0] == 'ok') != (rB[0] == 'ok'):
+                        if van:
+                            # one replica met the vanished file, the other had nothing to hash in that directory
+                            counters['vanish_outcomes_differ'] = counters.get('vanish_outcomes_differ', 0) + 1
+                            break
                         violations.append(viol('incr.outcome-differs', 'round %d: incremental %s, full %s' % (ri, describe(rA), describe(rB)), sig='%s/%s' % (rA[0], rB[0])))
+                        break
+                    if van:
+                        continue      # both refused and wrote nothing: the history goes on from the same state
                     break
                 # TIMESTAMP never later than the moment scanning started
                 for name, root, ss, op_i in (('A', A, ssA, opi - 2), ('B', B, ssB, opi - 1)):
